@@ -47,7 +47,7 @@ Definition run (inp : list N) : list N :=
     | Some (t, nr :: r') =>
       match dec_rscripts (nat_of nr) r' with
       | Some scs =>
-        let es := validate unit (N * phase * nat) (map (fun sc => (scripted_rule sc, tt)) scs)
+        let es := validate (map (fun sc => (scripted_rule sc, tt)) scs)
                            (Some (nat_of limit)) (nat_of fuel) t in
         0 :: of_nat (length es) :: flat_map enc_err es
       | None => [8]
